@@ -224,8 +224,17 @@ def run_scenario(desc, keep_events=0, event_kinds=None, pre_ops=None) -> RunReco
                 try:
                     ht = tasks.build_task(h["task"])
                     ho = opt if h.get("instance", "same") == "same" else cls(make_config(desc["optimizer"], desc["config"]))
-                    ho.optimize(ht, mode=h.get("mode", "serial"))
+                    hres = ho.optimize(ht, mode=h.get("mode", "serial"))
                     sim.count("history_runs_completed")
+                    if desc.get("history_utils"):
+                        # the user plots the earlier run's trends, then drops that result
+                        import pyvolutionary as _pv
+                        _pv.best_agent_trend(hres)
+                        _pv.best_agent_position(hres)
+                        _pv.agent_trend(hres, 0)
+                        _pv.agent_position(hres, min(1, len(hres.evolution[0].agents) - 1))
+                        sim.count("history_trend_calls")
+                    del hres
                 except kernel.SimAbort:
                     raise
                 except BaseException:
